@@ -836,3 +836,123 @@ Proof.
            destruct failed; cbn [negb andb]; [apply Hres|].
            destruct s as [|s0 s']; cbn [is_nil]; apply Hres.
 Qed.
+
+Lemma strip_stars_app p : exists k, p = repeat ch_star k ++ snd (strip_stars p)
+  /\ fst (strip_stars p) = Nat.ltb 0 k /\ (forall r, snd (strip_stars p) <> ch_star :: r).
+Proof.
+  induction p as [|c t IH]; [exists 0%nat; repeat split; discriminate|].
+  cbn [strip_stars]. destruct (c =? ch_star) eqn:E.
+  - assert (c = ch_star) by lia. subst c. destruct IH as (k & Hp & Hf & Hn).
+    exists (S k). cbn [fst snd repeat app]. repeat split; [rewrite <- Hp; reflexivity|exact Hn].
+  - exists 0%nat. cbn [fst snd repeat app]. repeat split. intros r Er. injection Er as Ec _. lia.
+Qed.
+
+Lemma scan_nil p rest : scan p false = ([], rest) -> p = [] \/ exists r, p = ch_star :: r.
+Proof.
+  destruct p as [|c t]; [left; reflexivity|]. cbn [scan]. intros H. right.
+  destruct (c =? ch_bsl); [destruct t; [discriminate|destruct (scan t false); discriminate]|].
+  destruct (c =? ch_lbr); [destruct (scan t true); discriminate|].
+  destruct (c =? ch_rbr); [destruct (scan t false); discriminate|].
+  destruct (c =? ch_star) eqn:E; cbn in H; [exists t; f_equal; lia|destruct (scan t false); discriminate].
+Qed.
+
+Lemma Parses_stars k p ts : Parses p ts -> Parses (repeat ch_star k ++ p) (repeat TStar k ++ ts).
+Proof. intros H. induction k; [exact H|]. cbn [repeat app]. apply P_star. exact IHk. Qed.
+
+Lemma matchChunk_inv chunk s : scan chunk false = (chunk, []) ->
+  match matchChunk chunk s with
+  | Ok _ => exists items, Parses chunk items /\ no_star items
+  | Bad => True
+  | Fuel | Panic => False
+  end.
+Proof. intros H. unfold matchChunk. apply matchChunkLoop_inv; [lia|exact H]. Qed.
+
+(** [Match] answers true only for well-formed patterns, and never runs out of fuel or panics *)
+Theorem MatchLoop_inv : forall fuel p s, (length p < fuel)%nat ->
+  match MatchLoop fuel p s with
+  | Ok true => WellFormed p
+  | Ok false | Bad => True
+  | Fuel | Panic => False
+  end.
+Proof.
+  induction fuel as [|f IH]; intros p s Hf; [lia|].
+  destruct p as [|c0 p0].
+  - cbn. destruct (is_nil s); [exists []; constructor|exact I].
+  - cbn [MatchLoop]. unfold scanChunk.
+    destruct (strip_stars_app (c0 :: p0)) as (k & Hp & Hst & Hns).
+    destruct (strip_stars (c0 :: p0)) as [star p1] eqn:Ess. cbn [fst snd] in Hp, Hst, Hns.
+    destruct (scan p1 false) as [chunk rest] eqn:Esc. cbv beta iota zeta.
+    pose proof (scan_app _ _ _ _ Esc) as Hp1. pose proof (scan_idem _ _ _ _ Esc) as Hidem.
+    destruct (star && is_nil chunk) eqn:EA.
+    + destruct (negb (contains_sep s)); [|exact I].
+      apply andb_prop in EA. destruct EA as [_ Ec]. destruct chunk; [|discriminate].
+      destruct (scan_nil _ _ Esc) as [E|(r & E)]; [|exfalso; exact (Hns r E)].
+      rewrite Hp, E, app_nil_r. exists (repeat TStar k).
+      pose proof (Parses_stars k [] [] P_nil) as H. rewrite !app_nil_r in H. exact H.
+    + assert (Hlen : (length rest < f)%nat).
+      { assert (Hl : length (c0 :: p0) = (k + (length chunk + length rest))%nat).
+        { rewrite Hp, Hp1, !app_length, repeat_length. reflexivity. }
+        assert (Hpos : (1 <= k + length chunk)%nat).
+        { destruct k; [|lia]. destruct chunk; [|cbn; lia]. exfalso.
+          destruct (scan_nil _ _ Esc) as [E|(r & E)]; [|exact (Hns r E)].
+          cbn in Hp. rewrite E in Hp. discriminate. }
+        cbn [length] in Hl, Hf. lia. }
+      pose proof (matchChunk_inv chunk s Hidem) as Hmi.
+      destruct (matchChunk chunk s) as [o| | |] eqn:Emc; try contradiction; [|exact I].
+      destruct Hmi as (items & HPc & Hn).
+      pose proof (fun x => matchChunk_parses chunk items x HPc Hn) as Hmc.
+      assert (Hrec : forall t, match MatchLoop f rest t with
+                               | Ok true => WellFormed (c0 :: p0)
+                               | Ok false | Bad => True
+                               | _ => False end).
+      { intros t. specialize (IH rest t Hlen). destruct (MatchLoop f rest t) as [[|]| | |]; try exact IH.
+        destruct IH as (ts' & HPr). exists (repeat TStar k ++ items ++ ts').
+        rewrite Hp, Hp1. apply Parses_stars. apply Parses_app; assumption. }
+      assert (Hafter : match (if star
+                   then match starLoop chunk (is_nil rest) s with
+                        | Ok (Some t) => MatchLoop f rest t
+                        | Ok None => Ok false
+                        | Bad => Bad | Fuel => Fuel | Panic => Panic
+                        end
+                   else Ok false) with
+               | Ok true => WellFormed (c0 :: p0)
+               | Ok false | Bad => True
+               | _ => False end).
+      { destruct star; [|exact I].
+        destruct (starLoop_total chunk items (is_nil rest) Hmc s) as [[t|] Ho]; rewrite Ho; [apply Hrec|exact I]. }
+      destruct o as [t|]; [|cbv beta iota zeta; exact Hafter].
+      destruct (is_nil t || negb (is_nil rest)); cbv beta iota zeta; [apply Hrec|exact Hafter].
+Qed.
+
+Corollary Match_inv p s :
+  (Match p s = Ok true -> WellFormed p)
+  /\ (exists b, Match p s = Ok b) \/ Match p s = Bad.
+Proof.
+  pose proof (MatchLoop_inv (S (length p)) p s ltac:(lia)) as H. unfold Match.
+  destruct (MatchLoop (S (length p)) p s) as [[|]| | |]; try contradiction.
+  - left. split; [intros _; exact H|eexists; reflexivity].
+  - left. split; [discriminate|eexists; reflexivity].
+  - right. reflexivity.
+Qed.
+
+(** a malformed pattern is answered ErrBadPattern or (false, nil), never true *)
+Corollary Match_malformed p s : ~ WellFormed p -> Match p s = Bad \/ Match p s = Ok false.
+Proof.
+  intros Hw. destruct (Match_inv p s) as [[H1 (b & Hb)]|Hb]; [|left; exact Hb].
+  destruct b; [exfalso; apply Hw, H1, Hb|right; exact Hb].
+Qed.
+
+(** a malformed FIRST chunk is always reached: ErrBadPattern for every name *)
+Theorem Match_bad_first_chunk p s star chunk rest :
+  p <> [] -> scanChunk p = (star, chunk, rest) -> star && is_nil chunk = false ->
+  (forall items, ~ (Parses chunk items /\ no_star items)) -> Match p s = Bad.
+Proof.
+  intros Hne Hsc HA Hbad. unfold Match. destruct p as [|c0 p0]; [congruence|].
+  cbn [MatchLoop]. rewrite Hsc. rewrite HA.
+  assert (Hidem : scan chunk false = (chunk, [])).
+  { unfold scanChunk in Hsc. destruct (strip_stars (c0 :: p0)) as [st p1]. destruct (scan p1 false) as [ch rs] eqn:E.
+    inversion Hsc; subst. eapply scan_idem; exact E. }
+  pose proof (matchChunk_inv chunk s Hidem) as H.
+  destruct (matchChunk chunk s) as [o| | |]; try contradiction; [|reflexivity].
+  destruct H as (items & HP & Hn). exfalso. exact (Hbad items (conj HP Hn)).
+Qed.
